@@ -1047,6 +1047,8 @@ def h_helper_decision(u0: int, u1: int, e0: bool, e1: bool, e2: bool, e3: bool, 
     """
     pre: 0 <= u0 <= 2 and 0 <= u1 <= 2
     pre: B.get("S", 2) >= 3 or not (e2 or e5)
+    pre: B.get("conc") is None or concurrent == (B["conc"] == 1)
+    pre: B.get("act") is None or active == (B["act"] == 1)
     post: _ == True
     """
     # two servers that answer; which shares they hold and what the UEB fetch does is symbolic.  active: an upload of this
@@ -1239,7 +1241,8 @@ def h_client_cap_fields(size: int, k: int, n: int, segsize: int, dsize: int, dk:
 ADIE = B.get("adie", -1)       # number of helper->A calls client A answers before its connection is lost (-1: never)
 TMIN = B.get("tmin", 0)
 TMAX = B.get("tmax", 9)
-LATE = B.get("late", 0)        # 1: only the schedules in which B's upload() message reaches an upload helper that has already ended
+LATE = B.get("late", 0)        # 1 (obligation late_attach): only the schedules in which B's upload() message reaches an upload
+#                                helper that has already ended successfully; 0 (two_clients): every schedule
 
 
 def _pin(x, lo, hi):
@@ -1268,11 +1271,13 @@ def h_two_clients(size: int, CH: int, tjoin: int, p: int) -> bool:
 
     def _on_deliver(rref, name, args):
         # what the helper's state is when B's two messages arrive
-        if name == "upload_chk" and rref.opts["name"] == "B":
+        # (B's first attempt only)
+        if name == "upload_chk" and rref.opts["name"] == "B" and "active_at_chk" not in seen:
             seen["active_at_chk"] = SI1 in helper._active_uploads
-        if name == "upload" and rref.opts["name"] == "B":
-            seen["ended_at_upload"] = rref.target._finished_observers._fired
-            seen["failed_at_upload"] = seen["ended_at_upload"] and isinstance(rref.target._finished_observers._result, Failure)
+        if name == "upload" and rref.opts["name"] == "B" and "ended_at_upload" not in seen:
+            obs = rref.target._finished_observers
+            seen["ended_at_upload"] = obs._fired
+            seen["failed_at_upload"] = obs._fired and isinstance(obs._result, Failure)
     NET.on_deliver = _on_deliver
     saved = _with_chunks(CH, CH)
     try:
@@ -1291,16 +1296,24 @@ def h_two_clients(size: int, CH: int, tjoin: int, p: int) -> bool:
             _pump()
         sB = started[0]
         X.check_steering()
+        if "ended_at_upload" not in seen:
+            return "harness: second client never sent upload()"
+        if LATE == 1:
+            # the upload B was attached to ended, successfully, between the helper's answer to upload_chk and the arrival
+            # of B's upload(): B must still be given the results
+            assume(seen["ended_at_upload"] and not seen["failed_at_upload"])
+        if seen["failed_at_upload"]:
+            # the upload B was attached to FAILED (A's connection was lost while A was the only reader) before B's
+            # upload() arrived: B is handed that failure - and does what a user does, it starts the upload again
+            if len(sB.out) != 1 or not isinstance(sB.out[0], Failure):
+                return "second client was attached to an upload that had failed, but was not told so: %r" % (sB.out,)
+            if isinstance(sB.out[0].value, (AttributeError, TypeError)):
+                return "second client, attached late to a failed upload, got an internal error instead of the failure: %r" % (sB.out[0].value,)
+            sB = _client_upload(helper, "B", size, params)
+            _pump()
+            X.check_steering()
     finally:
         _restore_chunks(saved)
-    if "ended_at_upload" not in seen:
-        return "harness: second client never sent upload()"
-    # LATE=0: B's upload() reaches an upload helper that is still running (or one made for B).  LATE=1: the upload B was
-    # attached to ended between the helper's answer to upload_chk and the arrival of B's upload() - with success
-    # (a failed one hands B the failure, and B starts over: interrupt_resume / helper_upload_caps)
-    assume(seen["ended_at_upload"] == (LATE == 1))
-    if LATE == 1:
-        assume(not seen["failed_at_upload"])
     want = _expected_token(size, params)
     (capsB, err) = _caps_of(sB, "second client")
     if err:
@@ -1334,13 +1347,14 @@ def h_two_clients(size: int, CH: int, tjoin: int, p: int) -> bool:
             pos = 0
     if pos != 0:
         return "a ciphertext transfer was left incomplete although a client with a live connection was attached"
-    if sB.opts["made"] and NET.calls_of("B", "read_encrypted"):
+    readsB = [a for (w, nm, a) in NET.answered if w == "B" and nm == "read_encrypted"]
+    if sB.opts["made"] and readsB and len(AES.encs[sB.nenc].stream) > 0:
         encB = AES.encs[sB.nenc]
-        lastB = [a for (w, nm, a) in NET.answered if w == "B" and nm == "read_encrypted"][-1]
+        lastB = readsB[-1]
         r = X.fed_ok(encB.stream, lastB[0] + lastB[1], p, "second client's cipher stream")
         if r is not True:
             return r
-    if len(helper.made) > 2 or helper._active_uploads:
+    if len(helper.made) > 3 or helper._active_uploads:
         return "upload helpers made: %d, still active: %d" % (len(helper.made), len(helper._active_uploads))
     if ADIE < 0 and seen["active_at_chk"]:
         # B's question arrived while A's upload was running and A stayed connected: one upload helper, one transfer, one encoding
@@ -1360,6 +1374,7 @@ def h_two_clients(size: int, CH: int, tjoin: int, p: int) -> bool:
 def h_present_flow(u0: int, u1: int, e0: bool, e1: bool, e3: bool, e4: bool) -> bool:
     """
     pre: 0 <= u0 <= 2 and 0 <= u1 <= 2
+    pre: B.get("e0") is None or e0 == (B["e0"] == 1)
     post: _ == True
     """
     # real Uploader.upload -> AssistedUploader -> real Helper with the real checker over a symbolic grid (two servers, two
